@@ -58,11 +58,14 @@ def WARM():
 def check_mapping(n, S, removed_rows, I, sorted_flag, dtype):
     """One mapping() call against the definition reduced[I]."""
     reduced = np.array(S)
-    removed = np.array(removed_rows, dtype=dtype).reshape(-1, 2)
+    removed = np.array(removed_rows, dtype=dtype if dtype != 'list' else 'int64').reshape(-1, 2)
     case = {'oracle': 'mapping', 'n': n, 'reduced': list(S), 'removed': [list(r) for r in removed_rows],
             'indexes': list(I), 'sorted': sorted_flag, 'dtype': dtype}
     key = 'reduced=%s removed=%s I=%s sorted=%s dtype=%s' % (list(S), [list(r) for r in removed_rows], list(I), sorted_flag, dtype)
-    st, v, _ = lib.guarded(4 * n + 8 + 4 * len(I), rdp.mapping, np.array(I, dtype=int), reduced, removed, sorted_flag)
+    idx_arg = list(I) if dtype == 'list' else np.array(I, dtype=int)
+    if dtype == 'list':
+        removed = np.array(removed_rows, dtype='int64').reshape(-1, 2)
+    st, v, _ = lib.guarded(4 * n + 8 + 4 * len(I), rdp.mapping, idx_arg, reduced, removed, sorted_flag)
     size = (n, len(I))
     if st == 'hang':
         return [Failure('rdp.mapping', 'non-termination', key, case, str(v), size)]
@@ -172,7 +175,9 @@ def run_unit(unit, res):
                         seen.add(c)
                         lists.append(list(c))
             for I in lists:
-                for dtype in ('int64', 'float64'):
+                for dtype in ('int64', 'float64', 'list'):
+                    if dtype == 'list' and not I:
+                        continue
                     fs = check_mapping(n, S, rows, I, True, dtype)
                     for f in fs:
                         res.fail(f)
